@@ -243,6 +243,16 @@ func (s *Stream) next(ctx context.Context, block bool) bool {
 
 		// await next event
 		verifAwait("stream.wait", s, func() bool { return verifReady("stream.wait", verifSignalReady(signal), ctx.Err() != nil) })
+		switch verifPick("stream.wait", len(signal) > 0, ctx.Err() != nil) {
+		case 1:
+			<-signal
+			continue
+		case 2:
+			signal = nil
+		}
+		if verifBoth(verifSignalReady(signal), ctx.Err() != nil) {
+			signal = nil
+		}
 		select {
 		case _, ok := <-signal:
 			if !ok {
